@@ -125,3 +125,26 @@ let run (f : string list) : string * string =
     end) calls;
   let m = Buffer.contents buf in
   (m, m)
+
+
+(* the interactive client (App.v): sessions, local files, input lines *)
+let show_item = function
+  | OPrompt p -> "P:" ^ hex_of_bytes p
+  | OLine l -> "L:" ^ hex_of_bytes l
+  | ORaw t -> "R:" ^ hex_of_bytes t
+  | OFtpError -> "E"
+  | OProgressBegin -> "B"
+  | OProgressEnd -> "N"
+
+let run_app (f : string list) : string * string =
+  toks := Array.of_list f; pos := 1;
+  let script = nlist p_session in
+  let files = nlist (fun () -> let n = nhex () in let c = nhex () in (n, c)) in
+  let input = nlist nhex in
+  let (st, a) = run_main (app_init script files input) in
+  let wire = List.filter_map (function EWire (_, _, l) -> Some (hex_of_bytes l) | _ -> None) a.a_w.w_trace in
+  let fs = List.sort compare (List.map (fun (n, c) -> hex_of_bytes n ^ "=" ^ hex_of_bytes c) a.a_fs) in
+  let m = Printf.sprintf "status=%s open=%s left=%d out=%s fs=%s wire=%s"
+    (match st with ExitSuccess -> "0" | Hung -> "hung") (b2s a.a_w.w_open) (List.length a.a_in)
+    (String.concat "," (List.map show_item a.a_out)) (String.concat "," fs) (String.concat "," wire) in
+  (m, m)
